@@ -78,13 +78,23 @@ Print Assumptions css_relex_idempotent.
 (* C07 (partial): a sequence of tokens, each written according to the railroad diagram of its class
    (tok_spec, Css/Classes.v) and followed by texts that do not merge with it (the follower condition carried by
    tok_spec: the CSS Syntax separation rules), lexes to exactly that sequence of token types and texts.
-   Classes proved, each by a maximal-munch lemma: whitespace; colon, semicolon, comma, brackets, the five match
-   operators, column, CDO, CDC; comments; identifiers, custom-property names, functions, at-keywords and hashes
-   without escapes; numbers, percentages and dimensions including the back-off of a '.' or 'e' that cannot
-   continue the number; strings and bad strings without escapes.
-   MISSING (no constructor in tok_spec, so such tokens cannot occur in the hypothesis): escapes inside names and
-   strings, url( ) and bad-url tokens, unicode-range tokens, delimiters.  Those are covered by the
-   correspondence run and the token-grammar oracle only. *)
+   Every token type has its constructors, each proved by a maximal-munch lemma: whitespace; colon, semicolon,
+   comma, brackets, the five match operators, column, CDO, CDC; comments (closed, or cut by the end of input);
+   identifiers, custom-property names, functions, at-keywords, hashes and dimension units with escapes (esc_text:
+   backslash + non-hex byte, backslash + UTF-8 sequence, backslash + 1..6 hex digits + one optional whitespace byte,
+   each with the follower it tolerates: fewer than six hex digits must not be followed by a hex digit, and no hex
+   escape without its whitespace by whitespace); numbers, percentages and dimensions including the back-off of a
+   '.' or 'e' that cannot continue the number; strings and bad strings with escapes and line continuations, and
+   strings cut by the end of input; url( ) with an unquoted or quoted argument (name "url" in any case, also
+   written with backslashes), closed by ")" or by the end of input; bad-url in its four shapes (forbidden byte,
+   whitespace then more text, text after the string, bad string) with the remnants up to the first ")" that is
+   not part of an escape; unicode-range (1..6 hex digits and "?", or two hex runs of 1..6 around "-");
+   every delimiter byte with exactly the followers that leave it a delimiter ("#", "@", "+", "-", ".", "/", "<",
+   the match characters, "|", backslash before a line break or the end, NUL inside the input, the rest).
+   MISSING (no constructor in tok_spec, so such texts cannot occur in the hypothesis): a backslash followed by a
+   UTF-8 lead byte whose continuation bytes are cut by the end of the input; the identifier "u"/"U" directly
+   followed by "+" and a malformed range (more than six digits/"?", or "-" without 1..6 hex digits after it).
+   Not claimed: the converse (that every output of the lexer satisfies tok_spec). *)
 Theorem css_token_sequences_partial : forall toks, seq_ok toks ->
   css_lex (concat (map snd toks)) = LexDone toks.
 Proof. exact css_token_sequences_proof. Qed.
